@@ -308,6 +308,28 @@ CHECKS = {
         note='two known findings (undo of the first change to a base object; '
              'allocator re-issuing an un-created oid); clock monotone across '
              'layers'),
+    'C17': dict(
+        technique='explicit-state exploration of source histories with '
+                  'copy / recovery compared by the full battery, and '
+                  'exhaustive damage enumeration (every byte offset x 5 '
+                  'damage kinds) for the recovery tool',
+        text='For every source history (depth 4 quick / 5 thorough over 14 '
+             'operations incl. undo, two undos in one transaction, deletes, '
+             'restore hints, pack) and from a state with a two-record '
+             'transaction: copyTransactionsFrom into FileStorage with and '
+             'without blob directory, piecewise through iterator(start, '
+             'stop) split after every transaction, and fsrecover.recover on '
+             'the undamaged file must each answer the whole battery like the '
+             'source (tids, status, metadata, records, un-creations); blob '
+             'histories are copied file by file. For 3 fixed histories (all '
+             'depth-2/3 histories in the thorough tier) every byte offset x '
+             '{cut, zero 1/8/64 bytes, 0xFF x 8} is recovered under a read '
+             'budget: it must terminate, keep every transaction that ends '
+             'before the damage, and change no transaction outside it.',
+        design='3 (C17)',
+        note='transactions overlapping the damage, or depending on one that '
+             'does through a back pointer, are unconstrained (no checksums '
+             'in the format)'),
     'C19': dict(
         technique='explicit-state exploration of the real fsIndex over a '
                   '12-key alphabet, every query compared with a sorted dict',
